@@ -42,7 +42,7 @@ Proof. induction outs as [|x t IH]; intros vs l vs' y H N; destruct l; cbn in H;
 (* variables that are not outputs keep their value *)
 Lemma exec_frame O i s s' y : exec O i s = Next s' -> ~ In y (i_outs i) -> vars s' y = vars s y.
 Proof.
-  destruct i as [op args outs wm wrd id]. unfold exec. cbn [i_op i_args i_outs i_wm i_wrd i_id]. intros H N.
+  destruct i as [op args outs wm wrd id ann]. unfold exec. cbn [i_op i_args i_outs i_wm i_wrd i_id i_ann]. intros H N.
   assert (U : forall x v, outs = [x] -> upd (vars s) x v y = vars s y).
   { intros x v ->. apply upd_other. intros ->. apply N. left. reflexivity. }
   case_op op "phi".
@@ -101,7 +101,7 @@ Qed.
 Lemma def_value O C i s s' x r k v : cinv C s -> exec O i s = Next s' -> i_outs i = [x] ->
   cert_of_def C i = Some (r, k) -> vars s' x = Some v -> fst v = r /\ (forall k0, k = Some k0 -> snd v = k0).
 Proof.
-  intros HI. destruct i as [op args outs wm wrd id]. unfold exec, cert_of_def. cbn [i_op i_args i_outs i_wm i_wrd i_id].
+  intros HI. destruct i as [op args outs wm wrd id ann]. unfold exec, cert_of_def. cbn [i_op i_args i_outs i_wm i_wrd i_id i_ann].
   intros H -> Hc Hv.
   case_op op "phi".
   { destruct (phi_pick (spred s) args) eqn:P; try discriminate. destruct (oval s o) eqn:Ov; try discriminate.
